@@ -60,13 +60,17 @@ fn shapes() -> Vec<(&'static str, Value, Value)> {
 
 fn cases14(_ob: &str) -> Vec<String> {
     let mut out: Vec<String> = (0..shapes().len()).map(|i| format!("shape:{}", i)).collect();
-    for i in 0..11 { out.push(format!("alt:{}", i)); }
+    for i in 0..17 { out.push(format!("alt:{}", i)); }
     out
 }
 fn data_err<T: std::fmt::Debug>(r: Result<T, serde_lexpr::Error>, what: &str) -> Option<String> {
     match r { Ok(x) => Some(format!("{} accepted as {:?}", what, x)), Err(e) => if e.classify() == serde_lexpr::error::Category::Data { None } else { Some(format!("{}: error category {:?}, not Data", what, e.classify())) } }
 }
 fn check14(case: &str) -> Option<String> {
+    let c = case.to_string();
+    match std::panic::catch_unwind(move || check14_inner(&c)) { Ok(r) => r, Err(_) => Some(format!("{}: panic", case)) }
+}
+fn check14_inner(case: &str) -> Option<String> {
     let p: Vec<&str> = case.split(':').collect();
     let i = p.get(1)?.parse::<usize>().ok()?;
     match p[0] {
@@ -82,6 +86,12 @@ fn check14(case: &str) -> Option<String> {
             8 => data_err(from_value::<Vec<i32>>(&Value::append(vec![Value::from(1), Value::from(2)], Value::Nil)), "(1 2 . #nil) as sequence"),
             9 => data_err(from_value::<(i32, i32)>(&Value::append(vec![Value::from(1), Value::from(2)], Value::Nil)), "(1 2 . #nil) as tuple"),
             6 => data_err(from_value::<Tup>(&Value::append(vec![Value::from(1), Value::from("a")], Value::from(3))), "improper list as tuple struct"),
+            11 => data_err(from_value::<Vec<u64>>(&Value::from(u64::MAX)), "the integer 2^64-1 as sequence"),
+            12 => data_err(from_value::<Vec<u64>>(&Value::append(vec![Value::from(1), Value::from(2)], Value::from(u64::MAX))), "(1 2 . 18446744073709551615) as sequence"),
+            13 => data_err(from_value::<(u64, u64)>(&Value::from(1u64 << 63)), "the integer 2^63 as tuple"),
+            14 => data_err(from_value::<Vec<f64>>(&Value::from(1.5)), "a float as sequence"),
+            15 => data_err(from_value::<(i32, i32)>(&Value::append(vec![Value::from(1), Value::from(2)], Value::from(-1.5e300))), "(1 2 . -1.5e300) as tuple"),
+            16 => data_err(from_value::<Vec<i64>>(&Value::from(i64::MIN)), "the integer -2^63 as sequence"),
             _ => data_err(from_value::<(i32, i32)>(&sym("x")), "symbol as tuple"),
         },
         _ => None,
@@ -90,7 +100,10 @@ fn check14(case: &str) -> Option<String> {
 
 fn corpus() -> Vec<Value> {
     let atoms = vec![Value::Nil, Value::Null, Value::from(true), Value::from(1), Value::from(-1), Value::from(300), Value::from(u64::MAX), Value::from(1.5), Value::from(1e300), Value::from(1e39), Value::from(-4e38), Value::from('c'), Value::from("s"), sym("U"), sym("N"), sym("x"),
-                     Value::keyword("k"), Value::from(vec![1u8, 2].into_boxed_slice())];
+                     Value::keyword("k"), Value::from(vec![1u8, 2].into_boxed_slice()),
+                     Value::from(""), Value::from("1"), Value::from("-7"), Value::from("1.5"), Value::from("("), Value::from(")"), Value::from("1 2"), Value::from("#\\"), Value::from("\"x"), Value::from("ab"), Value::from("\u{3bb}"), Value::from("#t"), Value::from("()"),
+                     Value::from(0), Value::from(255), Value::from(256), Value::from(1u64 << 63), Value::from(i64::MIN), Value::from(i64::MAX), Value::from(u32::MAX), Value::from(-129), Value::from(0.0), Value::from(-0.5),
+                     Value::from('\u{3bb}'), Value::from('\u{0}'), sym(""), Value::keyword(""), Value::from(Vec::<u8>::new().into_boxed_slice()), Value::from(false)];
     let mut out = atoms.clone();
     out.push(Value::Vector(vec![Value::from(7)].into()));
     out.push(Value::Vector(vec![].into()));
